@@ -190,6 +190,31 @@ def pow_pitfall(t):
     return False
 
 
+def has_column(t):
+    if not isinstance(t, tuple) or not t:
+        return False
+    if t[0] == "col":
+        return True
+    if t[0] in ("num", "str", "py"):
+        return False
+    if t[0] == "call":
+        return any(has_column(a) for a in t[2]) or any(has_column(kw[1]) for kw in t[3])
+    return any(has_column(c) for c in t[1:] if isinstance(c, tuple))
+
+
+def integer_tower(t):
+    """A `**` between column-free operands that is not literal ** literal: Python (and the library) would compute an
+    astronomically large integer, e.g. 3 ** 12 ** 12.  Such expressions are not generated into the oracle."""
+    if not isinstance(t, tuple) or not t or t[0] in ("col", "num", "str", "py"):
+        return False
+    if t[0] == "bin" and t[1] == "**" and not has_column(t[2]) and not has_column(t[3]):
+        if t[2][0] != "num" or t[3][0] != "num":
+            return True
+    if t[0] == "call":
+        return any(integer_tower(a) for a in t[2]) or any(integer_tower(kw[1]) for kw in t[3])
+    return any(integer_tower(c) for c in t[1:] if isinstance(c, tuple))
+
+
 def nontrivial(t):
     precs, flags = set(), set()
 
@@ -284,6 +309,9 @@ def judge(ctx, case):
     if ctx.skip():
         return
     t = _tup(case["tree"])
+    if integer_tower(t) or (case.get("other") is not None and integer_tower(_tup(case["other"]))):
+        ctx.count(core.canon(case["tree"]), False, ["unjudged:integer_power_tower"])
+        return
     rnd = random.Random(case["layout_seed"])
     text = render(t, rnd)
     canon = render(t, None, canonical=True)
@@ -298,7 +326,8 @@ def judge(ctx, case):
     np.seterr(all="ignore")
     r1 = Recorder()
     try:
-        want = py_value(text, r1)
+        with core.TimeLimit(20, library=False):
+            want = py_value(text, r1)
     except Exception as e:  # pylint: disable=broad-except
         ctx.reject(e)  # Python itself refuses (e.g. None + 1): nothing to compare
         return
